@@ -289,6 +289,10 @@ func (e *Enc) call(x *ssa.Call, st *State) {
 			t := e.evalHyp(c.Expr, envPost)
 			e.emitAssert(e.curBlock, implies(e.reachHere(), t))
 		}
+		for _, c := range ct.Records {
+			t := e.evalHyp(c.Expr, envPost)
+			e.emitAssert(e.curBlock, implies(e.reachHere(), t))
+		}
 	}
 }
 
